@@ -123,8 +123,11 @@ Section Update.
   Variable sc : script.
   Variable format_only : bool.      (* --format: no execution, records written as parsed *)
 
-  (* one open output file of the stack: original name, text written so far, halt seen *)
-  Record item := mkItem { it_file : str; it_text : str; it_halt : bool }.
+  (* one open output file of the stack: original name, text written so far.  The halt flag is
+     ONE boolean for the whole update (a local of update_test_file set at the first `halt`
+     of the flattened list and never reset): after it every record, in whichever file, is
+     written as is and nothing is executed - exactly where run_multi_async stops. *)
+  Record item := mkItem { it_file : str; it_text : str }.
 
   Inductive ures :=
   | UOk (written : list (str * list N)) (ev : list event) (known : list N)   (* (file, final bytes) in rename order *)
@@ -136,13 +139,13 @@ Section Update.
     | TPanic => None
     end.
 
-  Definition write_rec (it : item) (r : record) (halt : bool) : option item :=
+  Definition write_rec (it : item) (r : record) : option item :=
     match display r with
-    | Some t => Some (mkItem (it_file it) (it_text it ++ t ++ [10]) halt)
+    | Some t => Some (mkItem (it_file it) (it_text it ++ t ++ [10]))
     | None => None
     end.
 
-  Fixpoint update_loop (rs : list record) (stack : list item) (st : rstate) (w : world)
+  Fixpoint update_loop (rs : list record) (stack : list item) (halt : bool) (st : rstate) (w : world)
            (done : list (str * list N)) (ev : list event) (kn : list N) : ures :=
     match rs with
     | [] =>
@@ -158,35 +161,35 @@ Section Update.
         | [] => UPanic done ev []
         | it :: below =>
             match r with
-            | RBeginInclude f => update_loop rest (mkItem f [] false :: stack) st w done ev kn
+            | RBeginInclude f => update_loop rest (mkItem f [] :: stack) halt st w done ev kn
             | REndInclude _ =>
                 match close_item it with
-                | Some d => update_loop rest below st w (done ++ [d]) ev kn
+                | Some d => update_loop rest below halt st w (done ++ [d]) ev kn
                 | None => UPanic done ev (map it_file stack)
                 end
             | _ =>
-                if it_halt it then
-                  match write_rec it r true with
-                  | Some it' => update_loop rest (it' :: below) st w done ev kn
+                if halt then
+                  match write_rec it r with
+                  | Some it' => update_loop rest (it' :: below) true st w done ev kn
                   | None => UPanic done ev (map it_file stack)
                   end
                 else match r with
                 | RHalt _ =>
-                    match write_rec it r true with
-                    | Some it' => update_loop rest (it' :: below) st w done ev kn
+                    match write_rec it r with
+                    | Some it' => update_loop rest (it' :: below) true st w done ev kn
                     | None => UPanic done ev (map it_file stack)
                     end
                 | _ =>
                     if format_only then
-                      match write_rec it r false with
-                      | Some it' => update_loop rest (it' :: below) st w done ev kn
+                      match write_rec it r with
+                      | Some it' => update_loop rest (it' :: below) false st w done ev kn
                       | None => UPanic done ev (map it_file stack)
                       end
                     else
                     let '(e1, st1, w1, o) := apply_record substitute sc st w r in
                     let r' := match update_record r o with Some x => x | None => r end in
-                    match write_rec it r' false with
-                    | Some it' => update_loop rest (it' :: below) st1 w1 done (ev ++ e1) (kn ++ known_class (cfg st1) r o)
+                    match write_rec it r' with
+                    | Some it' => update_loop rest (it' :: below) false st1 w1 done (ev ++ e1) (kn ++ known_class (cfg st1) r o)
                     | None => UPanic done (ev ++ e1) (map it_file stack)
                     end
                 end
@@ -195,5 +198,5 @@ Section Update.
     end.
 
   Definition update_records (main : str) (rs : list record) (st : rstate) : ures :=
-    update_loop rs [mkItem main [] false] st world0 [] [] [].
+    update_loop rs [mkItem main []] false st world0 [] [] [].
 End Update.
